@@ -164,7 +164,21 @@ fn explore_confirm_history(depth: usize, out: &mut Outcome, viol: &mut Vec<Struc
                 let mut next = hist.clone();
                 next.push(t);
                 match build_history(base, &next) {
-                    Ok((h2, _)) => {
+                    Ok((h2, m2)) => {
+                        // the effect of this very confirmation is judged here: the state it leads
+                        // to may have been visited through another history (then it is not expanded)
+                        queries += 1;
+                        if let Ok(got) = guarded_q(|| h2.contains(tick(t))) {
+                            if got != m2.contains(t) {
+                                viol.push(StructViolation {
+                                    cell: "c12a-confirm-history",
+                                    history: show(Some(format!("confirm({})", tick(t).get()))),
+                                    query: format!("contains({})", tick(t).get()),
+                                    detail: format!("returned {got} right after the confirmation, a set of confirmed ticks says {}", m2.contains(t)),
+                                    oracle: "query-mismatch",
+                                });
+                            }
+                        }
                         if visited.insert((h2.mask(), h2.last_tick().get())) {
                             frontier.push_back(next);
                         }
